@@ -5,9 +5,9 @@ arm) and guard clauses earlier in the enclosing blocks (`if T: continue /
 break / return / raise` without else  =>  not T afterwards).  Tests are split
 into conjuncts (and; negated or by De Morgan; chained comparisons) and each
 conjunct is kept in the canonical form of exprnorm.canon, so `0 <= x`,
-`x >= 0` and `not x < 0` are the same fact.  Purely syntactic: a fact about a
-variable that is reassigned between the guard and the use would be stale - the
-callers use it for loop-local indices that are bound once per iteration.
+`x >= 0` and `not x < 0` are the same fact.  A fact is killed when a name it mentions is rebound (or its
+object is stored into) between the test and the use, or anywhere inside a loop
+that is entered after the test.
 """
 
 import ast
@@ -59,18 +59,55 @@ def _leaves_block(block):
     return bool(block) and isinstance(block[-1], (ast.Continue, ast.Break, ast.Return, ast.Raise))
 
 
+def _rebound(stmts_):
+    """(names rebound, names whose object is stored into) by the statements, at any depth"""
+    names, stored = set(), set()
+    for st in stmts_:
+        for n in ast.walk(st):
+            if isinstance(n, ast.Name) and isinstance(n.ctx, (ast.Store, ast.Del)):
+                names.add(n.id)
+            elif isinstance(n, (ast.Subscript, ast.Attribute)) and isinstance(n.ctx, (ast.Store, ast.Del)):
+                b = n
+                while isinstance(b, (ast.Subscript, ast.Attribute)):
+                    b = b.value
+                if isinstance(b, ast.Name):
+                    stored.add(b.id)
+    return names, stored
+
+
+def _mentions(fact, names, stored):
+    shape_only = set()
+    for n in ast.walk(fact):
+        if isinstance(n, ast.Attribute) and n.attr == "shape" and isinstance(n.value, ast.Name):
+            shape_only.add(id(n.value))
+    for n in ast.walk(fact):
+        if isinstance(n, ast.Name):
+            if n.id in names:
+                return True
+            if n.id in stored and id(n) not in shape_only:
+                return True
+    return False
+
+
 def facts_at(func, node):
-    """set of canonical facts holding at `node` (an AST node inside func)"""
+    """set of canonical facts holding at `node` (an AST node inside func).  A fact is dropped when one of its names is
+    rebound (or its object stored into) between the test and the node, or anywhere in a loop entered after the test."""
     facts = []
 
     def contains(st):
         return any(x is node for x in ast.walk(st))
 
+    def kill(stmts_):
+        names, stored = _rebound(stmts_)
+        if names or stored:
+            facts[:] = [f for f in facts if not _mentions(f, names, stored)]
+
     def descend(block):
         for k, st in enumerate(block):
             if contains(st):
                 # guard clauses before st in this block
-                for prev in block[:k]:
+                for j, prev in enumerate(block[:k]):
+                    kill([prev])
                     if isinstance(prev, ast.If) and not prev.orelse and _leaves_block(prev.body):
                         facts.extend(conjuncts(negate(prev.test)))
                     elif isinstance(prev, ast.If) and prev.orelse and _leaves_block(prev.orelse) and not _leaves_block(prev.body):
@@ -83,6 +120,10 @@ def facts_at(func, node):
                         facts.extend(conjuncts(negate(st.test)))
                         descend(st.orelse)
                     return
+                if isinstance(st, (ast.For, ast.While, ast.AsyncFor)):
+                    kill([st])      # a later iteration sees what any part of the loop rebinds
+                elif isinstance(st, (ast.With, ast.AsyncWith)):
+                    kill([ast.Expr(value=i.optional_vars) for i in st.items if i.optional_vars is not None])
                 for fld in ("body", "orelse", "finalbody"):
                     sub = getattr(st, fld, None)
                     if isinstance(sub, list) and any(contains(b) for b in sub):
